@@ -76,7 +76,7 @@ def build_partial(spec, omit, counter, via='never-assigned'):
             else:
                 setattr(s, kind, getattr(partial, kind))
         return s
-    s = P.System(types, kT=spec['kT'])
+    s = P.System(types, kT=spec['kT']) if spec['kT'] != 1.0 else P.System(types)     # kT=1.0 is the documented default
     omit = set(tuple(o) for o in omit)
 
     def wrap(obj):
